@@ -96,8 +96,23 @@ def _wseq(prefix, name, k, fdatasync, sizes, ops, close=1, appendmode=0, intrs=1
 VP_UNWIND = 10
 
 
+def _io(prefix, io, shorts, intrs, tier="quick", timeout=300):
+    nm = "%s.%s-loop-S%d-I%d" % (prefix, ("ldb_write", "ldb_read", "ldb_pread")[io], shorts, intrs)
+    loop = ("ldb_write", "ldb_read", "ldb_pread")[io]
+    return Obl(nm, "envunix/ldbio.c", real=[], include_real=["util/env.c", "util/env_unix_impl.h"], kit=["vp_nondet.c"],
+               defs={"VP_IO": io, "VP_SHORTS": shorts, "VP_INTRS": intrs}, real_defs=POSIX_DEFS,
+               unwind=VP_UNWIND, unwindset={loop + ".0": intrs + 2, loop + ".1": shorts + 3}, sat="cadical",
+               timeout=timeout, tier=tier, functions=[loop],
+               desc=("real ldb_write loop alone: each write(2) continues exactly behind the accepted bytes, asks for 1..remaining, "
+                     "EINTR retried, short counts completed; >=0 iff all bytes accepted, -1 + errno of the failed call after a strict prefix"
+                     if io == 0 else
+                     "real %s loop alone: chunks stored back to back inside the caller's buffer, offsets advance, EINTR retried, "
+                     "returns exactly the bytes delivered (early stop only at EOF), -1 + errno on failure" % loop),
+               bounds="symbolic length 0..140000, <=%d short transfers, <=%d EINTR, failure at any call with any errno" % (shorts, intrs))
+
+
 def wfile_obls(prefix):
-    out = []
+    out = [_io(prefix, 0, 3, 2)]
     # inductive steps: log-like name (no directory sync) and MANIFEST name, both sync configurations
     for fds in (1, 0):
         for op in (1, 2, 3, 4):
@@ -125,12 +140,38 @@ def wfile_obls(prefix):
     return out
 
 
+LOCK_FUNCS = ["ldb_lock_file", "ldb_unlock_file", "ldb_flock", "ldb_open", "ldb_try_open", "ldb_system_error", "by_fileid",
+              "ldb_rb_set_has", "ldb_rb_set_put", "ldb_rb_set_del", "ldb_rb_tree_get", "ldb_rb_tree_put", "ldb_rb_tree_del",
+              "rb_tree_insert_fixup", "rb_tree_remove_node", "rb_tree_remove_fixup"]
+
+
+def _lock(prefix, k, posix=0, tier="quick", timeout=300, known=None):
+    nm = "%s.lockfile-K%d%s" % (prefix, k, "-oslock" if posix else "")
+    return Obl(nm, "envunix/lockfile.c", real=["util/rbt.c"], include_real=["util/env.c", "util/env_unix_impl.h"],
+               kit=["vp_nondet.c", "vp_mem.c"], defs={"VP_K": k, "VP_POSIXCLOSE": posix, "VP_INTRS": 1}, real_defs=POSIX_DEFS,
+               unwind=8, unwindset={"ldb_open.0": 3, "vp_streq.0": 12, "memset.0": 40},
+               sat="cadical", timeout=timeout, tier=tier, functions=LOCK_FUNCS, known=known,
+               desc=("OS-level view: a lock file held according to the in-process table is still fcntl-locked (POSIX: close of any "
+                     "descriptor of the file drops the process' lock)" if posix else
+                     "real ldb_lock_file/ldb_unlock_file + real (dev,ino) rb-tree table: lock OK <=> file not held and no libc failure; "
+                     "second lock on a held file (any name) fails with ENOLCK; failure paths close the descriptor, return no handle, "
+                     "leave the table unchanged; unlock = F_UNLCK + close once + free + entry removed; errno of the first failing call returned"),
+               bounds="%d operations, each symbolically lock(one of 3 names, two of them the same (dev,ino), (dev,ino) symbolic 64-bit) or "
+                      "unlock(any held handle); open/fstat/fcntl/close may fail with any errno, <=1 EINTR" % k)
+
+
 def lockfile_obls(prefix):
-    return []
+    return [_lock(prefix, 2), _lock(prefix, 3), _lock(prefix, 4, tier="thorough", timeout=1800)]
+
+
+def lockfile_finding_obls(prefix):
+    """fails on the unchanged tree (POSIX close semantics); not part of lockfile_obls"""
+    return [_lock(prefix, 2, posix=1, known="C20-lockfile-close-drops-posix-lock")]
 
 
 def rwmisc_obls(prefix):
-    return []
+    out = [_io(prefix, 1, 3, 2), _io(prefix, 2, 3, 2)]
+    return out
 
 
 # development entry: ./check envunix_common
